@@ -83,6 +83,8 @@ class COTPConnectionBase(ParsableBase):
         parser = ParserBinary(parsable)
 
         parser.parse_numeric('length_indicator', 1)
+        if parser['length_indicator'] < cls.HEADER_SIZE - 1:
+            raise InvalidValue(parser['length_indicator'], cls, 'length_indicator')
         if parser.unparsed_length < parser['length_indicator']:
             raise NotEnoughData(parser['length_indicator'] - parser.unparsed_length)
 
